@@ -416,13 +416,18 @@ func c02Midpoint(p *ana.Prog, r *ana.Result) {
 		if !ok {
 			return
 		}
-		switch ana.AccessPath(st.Addr) {
-		case "m.Offset":
-			offStore = st
-		case "m.Timestamp":
-			tsStores = append(tsStores, st)
-		case "m.Error":
-			errStore = true
+		// the fields of the result measurement, whatever the result variable is called
+		if fa, ok := st.Addr.(*ssa.FieldAddr); ok && typeNameOf(fa.X.Type()) == "Measurement" {
+			if _, isParam := rootAlloc(fa.X).(*ssa.Parameter); !isParam {
+				switch fieldNameOf(fa.X.Type(), fa.Field) {
+				case "Offset":
+					offStore = st
+				case "Timestamp":
+					tsStores = append(tsStores, st)
+				case "Error":
+					errStore = true
+				}
+			}
 		}
 	})
 	okOff := false
@@ -451,15 +456,48 @@ func c02Midpoint(p *ana.Prog, r *ana.Result) {
 	} else {
 		r.Ok("C02.error-nil", fname, "error-never-assigned", p.Pos(mm.Pos()), "the result's Error is never assigned (nil)")
 	}
-	// timestamp: earlier.Add(later.Sub(earlier)/2) on both arms, arm chosen by !x.Timestamp.After(y.Timestamp)
-	okTS := len(tsStores) == 2
+	// timestamp: base.Add(other.Sub(base)/2) where base/other are the two parameters' timestamps
+	// (written on two arms, or once after ordering the two)
+	tsOf := func(v ssa.Value) string {
+		pth := ana.AccessPath(v)
+		if pth == "x.Timestamp" || pth == "y.Timestamp" {
+			return pth
+		}
+		return ""
+	}
+	pairOK := func(base, other ssa.Value) bool {
+		if b, o := tsOf(base), tsOf(other); b != "" && o != "" {
+			return b != o
+		}
+		pb, ok1 := base.(*ssa.Phi)
+		po, ok2 := other.(*ssa.Phi)
+		if !ok1 || !ok2 || pb.Block() != po.Block() || len(pb.Edges) != len(po.Edges) {
+			return false
+		}
+		for i := range pb.Edges {
+			b, o := tsOf(pb.Edges[i]), tsOf(po.Edges[i])
+			if b == "" || o == "" || b == o {
+				return false
+			}
+		}
+		return true
+	}
+	okTS := len(tsStores) == 1 || len(tsStores) == 2
+	var tsVals []ssa.Value
 	for _, st := range tsStores {
-		c, _ := ana.CallOf(st.Val)
+		if ph, ok := st.Val.(*ssa.Phi); ok {
+			tsVals = append(tsVals, ph.Edges...)
+		} else {
+			tsVals = append(tsVals, st.Val)
+		}
+	}
+	for _, tv := range tsVals {
+		c, _ := ana.CallOf(tv)
 		if c == nil || ana.CalleeName(c.Common()) != "(time.Time).Add" {
 			okTS = false
 			continue
 		}
-		base := ana.AccessPath(c.Common().Args[0])
+		base := c.Common().Args[0]
 		quo, ok := c.Common().Args[1].(*ssa.BinOp)
 		if !ok || quo.Op != token.QUO {
 			okTS = false
@@ -471,8 +509,9 @@ func c02Midpoint(p *ana.Prog, r *ana.Result) {
 			okTS = false
 			continue
 		}
-		later, earlier := ana.AccessPath(sub.Common().Args[0]), ana.AccessPath(sub.Common().Args[1])
-		if earlier != base || later == earlier || !strings.HasSuffix(base, ".Timestamp") || !strings.HasSuffix(later, ".Timestamp") {
+		later, earlier := sub.Common().Args[0], sub.Common().Args[1]
+		sameBase := earlier == base || (tsOf(earlier) != "" && tsOf(earlier) == tsOf(base))
+		if !sameBase || !pairOK(base, later) {
 			okTS = false
 		}
 	}
